@@ -37,7 +37,12 @@ UNSIGNED_OF = {"signed char": "unsigned char", "short": "unsigned short", "int":
                "long": "unsigned long", "long long": "unsigned long long"}
 
 
+CPLX = {"cf": "float _Complex", "cd": "double _Complex", "ld": "long double"}     # C14 only
+
+
 def cname(t):
+    if t in CPLX:
+        return CPLX[t]
     if t in INTS:
         return INTS[t][0]
     if t in ("bool", "char", "void"):
@@ -54,6 +59,8 @@ def cname(t):
 
 
 def tla_type(t):
+    if t in CPLX:
+        return {"cf": {"k": "complex", "size": 8}, "cd": {"k": "complex", "size": 16}, "ld": {"k": "ldouble"}}[t]
     base, dims = split_arr(t)
     if dims:
         r = tla_type(base)
@@ -82,6 +89,8 @@ _BY_CNAME["signed char"] = "i8"
 def tla_type_of_ctype(ct):
     """TLA type descriptor of a cffi ctype object (results are typed by what cffi returned)."""
     k = ct.kind
+    if k == "primitive" and ct.cname in CPLX.values():
+        return tla_type([n for n, c in CPLX.items() if c == ct.cname][0])
     if k == "primitive":
         t = _BY_CNAME.get(ct.cname)
         return tla_type(t) if t else {"k": "unknown", "name": ct.cname}
@@ -192,6 +201,8 @@ def enc_desc(d, cells):
         return enc_int(int(d[1]))
     if k == "float":
         return enc_float(unhex(d[1]))
+    if k == "complex":
+        return {"k": "pycomplex", "re": fimg(unhex(d[1])), "im": fimg(unhex(d[2]))}
     if k == "bytes":
         return {"k": "bytes", "data": list(d[1])}
     if k == "str":
@@ -353,9 +364,14 @@ def render_func(name, sig):
     raise ValueError(sig)
 
 
-def render_module(funcs):
-    """funcs: {name: sig} -> (cdef, C source)."""
+def render_module(funcs, pad=0):
+    """funcs: {name: sig} -> (cdef, C source).  pad: number of never-called padding functions
+    `_Bool padK(char x K)`; their function types sort first in the type table of the generated
+    modules and push the family's types beyond slot 256 (pad >= 22) / 1000 (pad >= 44)."""
     decls, defs = [], []
+    for k in range(1, pad + 1):
+        decls.append("_Bool pad%d(%s);" % (k, ", ".join(["char"] * k)))
+        defs.append("_Bool pad%d(%s) { return 0; }" % (k, ", ".join("char a%d" % j for j in range(k))))
     for name in sorted(funcs):
         d, c = render_func(name, funcs[name])
         decls.append(d)
@@ -768,6 +784,8 @@ class Builder:
 
 
 def _has_float(t):
+    if t in CPLX:
+        return True
     t = split_arr(t)[0]
     if t.startswith("p_"):
         return _has_float(t[2:])
